@@ -12,6 +12,7 @@ Events: feed / take(w) / finish(w) / deliver, see DESIGN.md section 2.2.
 """
 import collections
 import multiprocessing
+import threading
 import multiprocessing.pool as mpp
 import pickle
 from multiprocessing.reduction import ForkingPickler
@@ -43,12 +44,17 @@ class SimStepLimit(SimDeadlock):
 class _SimCondition:
     """Stand-in for threading.Condition on result objects: wait() drives the loop."""
 
-    def __init__(self, sim, what):
+    def __init__(self, sim, what, poll_on_enter=False):
         self._sim = sim
         self._what = what
         self._notified = False
+        self._poll_on_enter = poll_on_enter
 
     def __enter__(self):
+        # (Future.done() / running() look at the state under this condition: polling callers
+        # must see progress, see _SimEvent.is_set)
+        if self._poll_on_enter:
+            self._sim.poll()
         return self
 
     def __exit__(self, *exc):
@@ -85,6 +91,10 @@ class _SimEvent:
         self._flag = False
 
     def is_set(self):
+        # a caller that polls (`while not r.ready(): sleep(...)`) must see progress: each
+        # unsuccessful poll lets one simulator event happen
+        if not self._flag:
+            self._sim.poll()
         return self._flag
 
     def set(self):
@@ -440,6 +450,13 @@ class Sim:
                 self.logev('deadlock', why)
                 raise SimDeadlock('caller blocked on %s and no event is enabled' % why)
 
+    def poll(self):
+        """One event on behalf of a polling caller (never from inside an event)."""
+        if self.in_step or self.in_worker:
+            return
+        self.stats['polls'] += 1
+        self.step()
+
     def background(self, why):
         """At an API boundary the handler threads / workers may run ahead of the caller."""
         maxk = int(self.cfg.get('bg_steps', 0))
@@ -769,6 +786,22 @@ class Installed:
         self._set(os, 'cpu_count', cpu_count)
         if hasattr(os, 'process_cpu_count'):
             self._set(os, 'process_cpu_count', cpu_count)
+        import queue as _queue
+        orig_get = _queue.Queue.get
+
+        def sim_get(q, block=True, timeout=None):
+            # a caller collecting results through a queue.Queue fed by pool callbacks: while the
+            # queue is empty, let simulator events happen instead of blocking for real
+            if block and not sim.in_step and not sim.in_worker:
+                while q.empty():
+                    if not sim.step():
+                        if timeout is not None:
+                            raise _queue.Empty
+                        sim.logev('deadlock', 'queue.get')
+                        raise SimDeadlock('caller blocked on an empty queue.Queue and no event is enabled')
+            return orig_get(q, block, timeout)
+
+        self._set(_queue.Queue, 'get', sim_get)
         from . import simexec
         binds, exec_map = simexec.bindings(sim)
         for obj, attr, repl in binds:
